@@ -1,10 +1,113 @@
 /-
-  Driver ops for C09.
--/
-import CedarGo.Driver.Ops.Core
-namespace CedarGo.Driver
-open Lean CedarGo
+  Driver ops for C09: the JSON policy codec model (Model/Json/Policy.lean).
 
-def c09Ops : List (String × Handler) := []
+    json-encode     {"policy": p}            → canonical tree of `toJ p` (set VALUES inside literals sorted)
+    json-decode     {"doc": "<json text>"}   → `ok <canonical policy>` | `err` | `panic`; `skip …` when the tree
+                                               does not determine Go's behaviour
+    jsonset-encode  {"policies": [[id,p],…]} → canonical tree of `PolicySet.MarshalJSON`
+    jsonset-decode  {"doc"}                  → `ok id=<policy>;…` sorted by id
+-/
+import CedarGo.Driver.Ops.C13
+import CedarGo.Model.Json.Policy
+namespace CedarGo.Driver
+open Lean CedarGo CedarGo.JsonModel
+
+/-- set values have no order: sort members by the canonical rendering of their encoding (Go: hash order) -/
+partial def canonValueC09 : Value → Value
+  | .set xs =>
+    let ys := xs.map canonValueC09
+    let keyed := ys.map fun y => (canonVC13 (encodeValue y), y)
+    .set ((sortStrs (keyed.map (·.1))).filterMap fun k => (keyed.find? (·.1 == k)).map (·.2))
+  | .record kvs => .record (kvs.map fun kv => (kv.1, canonValueC09 kv.2))
+  | v => v
+
+partial def canonLitsC09 : Expr → Expr
+  | .lit v => .lit (canonValueC09 v)
+  | .var v => .var v
+  | .unop op e => .unop op (canonLitsC09 e)
+  | .binop op l r => .binop op (canonLitsC09 l) (canonLitsC09 r)
+  | .ite c t e => .ite (canonLitsC09 c) (canonLitsC09 t) (canonLitsC09 e)
+  | .access e a => .access (canonLitsC09 e) a
+  | .has e a => .has (canonLitsC09 e) a
+  | .like e p => .like (canonLitsC09 e) p
+  | .is e ty => .is (canonLitsC09 e) ty
+  | .isIn e ty r => .isIn (canonLitsC09 e) ty (canonLitsC09 r)
+  | .set es => .set (es.map canonLitsC09)
+  | .record kes => .record (kes.map fun ke => (ke.1, canonLitsC09 ke.2))
+  | .call fn args => .call fn (args.map canonLitsC09)
+
+def canonPolicyLitsC09 (p : Policy) : Policy :=
+  { p with conditions := p.conditions.map fun c => (c.1, canonLitsC09 c.2) }
+
+def showPatternC09 (p : Pattern) : String :=
+  "[" ++ ",".intercalate (p.map fun c => (if c.wildcard then "w" else "l") ++ hexBytes c.literal) ++ "]"
+
+partial def showExprC09 : Expr → String
+  | .lit v => s!"(lit {showValue v})"
+  | .var v => s!"(var {varName v})"
+  | .unop op e => s!"(un {unOpKey op} {showExprC09 e})"
+  | .binop op l r => s!"(bin {binOpKey op} {showExprC09 l} {showExprC09 r})"
+  | .ite c t e => s!"(ite {showExprC09 c} {showExprC09 t} {showExprC09 e})"
+  | .access e a => s!"(. {showExprC09 e} {hex a})"
+  | .has e a => s!"(has {showExprC09 e} {hex a})"
+  | .like e p => s!"(like {showExprC09 e} {showPatternC09 p})"
+  | .is e ty => s!"(is {showExprC09 e} {hex ty})"
+  | .isIn e ty r => s!"(isin {showExprC09 e} {hex ty} {showExprC09 r})"
+  | .set es => "(set" ++ String.join (es.map fun e => " " ++ showExprC09 e) ++ ")"
+  | .record kes => "(rec" ++ String.join ((sortDedup (kes.map fun ke => hex ke.1 ++ "=" ++ showExprC09 ke.2)).map (" " ++ ·)) ++ ")"
+  | .call fn args => s!"(call {hex fn}" ++ String.join (args.map fun e => " " ++ showExprC09 e) ++ ")"
+
+def showUIDC09 (u : UID) : String := s!"{hex u.1}:{hex u.2}"
+
+def showScopeC09 : Scope → String
+  | .all => "all"
+  | .eq e => s!"eq {showUIDC09 e}"
+  | .in_ e => s!"in {showUIDC09 e}"
+  | .inSet es => "inset [" ++ ",".intercalate (es.map showUIDC09) ++ "]"
+  | .is ty => s!"is {hex ty}"
+  | .isIn ty e => s!"isin {hex ty} {showUIDC09 e}"
+
+def showPolicyC09 (p : Policy) : String :=
+  (match p.effect with | .permit => "permit" | .forbid => "forbid")
+  ++ " ann=[" ++ ",".intercalate (sortDedup (p.annotations.map fun kv => hex kv.1 ++ "=" ++ hex kv.2)) ++ "]"
+  ++ " P=" ++ showScopeC09 p.principal ++ " A=" ++ showScopeC09 p.action ++ " R=" ++ showScopeC09 p.resource
+  ++ String.join (p.conditions.map fun c => (if c.1 then " when " else " unless ") ++ showExprC09 c.2)
+
+/-- every `like` literal is valid UTF-8 (otherwise the Go string is outside the model: `skip`) -/
+partial def validPatternsC09 : Expr → Bool
+  | .unop _ e => validPatternsC09 e
+  | .binop _ l r => validPatternsC09 l && validPatternsC09 r
+  | .ite c t e => validPatternsC09 c && validPatternsC09 t && validPatternsC09 e
+  | .access e _ => validPatternsC09 e
+  | .has e _ => validPatternsC09 e
+  | .like e p => (p.all fun c => bytesValid c.literal) && validPatternsC09 e
+  | .is e _ => validPatternsC09 e
+  | .isIn e _ r => validPatternsC09 e && validPatternsC09 r
+  | .set es => es.all validPatternsC09
+  | .record kes => kes.all fun ke => validPatternsC09 ke.2
+  | .call _ args => args.all validPatternsC09
+  | _ => true
+
+def opJsonEncode : Handler := fun _ j => do
+  let p ← decPolicy (← field j "policy")
+  if !(p.conditions.all fun c => validPatternsC09 c.2) then .error "invalid-utf8-pattern" else
+  .ok (toJ (canonPolicyLitsC09 p)).canon
+
+def opJsonDecode : Handler := fun _ j => do
+  showRC13 showPolicyC09 (fromJ (← parseDocC13 j))
+
+def showSetC09 (ps : List (PolicyID × Policy)) : String :=
+  ";".intercalate (sortDedup (ps.map fun ip => hex ip.1 ++ "=" ++ showPolicyC09 ip.2))
+
+def opJsonSetEncode : Handler := fun _ j => do
+  let ps ← decPolicies (← field j "policies")
+  .ok (setToJ (ps.map fun ip => (ip.1, canonPolicyLitsC09 ip.2))).canon
+
+def opJsonSetDecode : Handler := fun _ j => do
+  showRC13 showSetC09 (setFromJ (← parseDocC13 j))
+
+def c09Ops : List (String × Handler) :=
+  [("json-encode", opJsonEncode), ("json-decode", opJsonDecode),
+   ("jsonset-encode", opJsonSetEncode), ("jsonset-decode", opJsonSetDecode)]
 
 end CedarGo.Driver
